@@ -38,6 +38,8 @@ pub enum ObsOp {
     OwnerGet(u8),
     CloneOwner(u8),
     DropOwner(u8),
+    /// the handle is owned by a closure that panics: it is released by stack unwinding
+    DropOwnerUnwinding(u8),
     Downgrade(u8),
     Upgrade(u8),
     CloneWeak(u8),
@@ -88,6 +90,9 @@ pub struct ObsCase {
     /// all polls of the case use one waker (one task driving every subscriber)
     #[serde(default)]
     pub shared_waker: bool,
+    /// construct the observable with `Default::default()` (initial value (0, 0)) instead of `new`
+    #[serde(default)]
+    pub start_default: bool,
 }
 
 #[derive(Clone, Debug, PartialEq)]
@@ -363,6 +368,10 @@ impl<F: Flavor> W<F> {
         if got == PollRes::End || exp == PollRes::End {
             props.extend(self.end());
         }
+        if got == PollRes::Pending && exp != PollRes::Pending {
+            // suspended although an unobserved update / the end of the stream is available
+            props.extend(self.wake());
+        }
         self.ev(Ev::P(got), Ev::P(exp), &props, || format!("poll of subscriber {i} via {:?}", via))
     }
 
@@ -521,6 +530,29 @@ impl<F: Flavor> W<F> {
                     self.closed = true;
                     self.f.closes += 1;
                     self.all_pending_woken("the drop of the last owner")?;
+                }
+                Ok(())
+            }
+            ObsOp::DropOwnerUnwinding(owner) => {
+                let Some(o) = pick(owner, &self.live_owners()) else { return Ok(()) };
+                if self.owner_has_guard(o) {
+                    return Ok(());
+                }
+                let last = self.live_owners().len() == 1;
+                if last && (wheld || rheld) {
+                    return Ok(());
+                }
+                let h = self.owners[o].take().unwrap();
+                let r = crate::common::catch(move || {
+                    let _owned_here = h;
+                    panic!("harness: deliberate panic to release a handle by unwinding");
+                });
+                debug_assert!(r.is_err());
+                self.f.clones_dropped += 1;
+                if last {
+                    self.closed = true;
+                    self.f.closes += 1;
+                    self.all_pending_woken("the drop (by unwinding) of the last owner")?;
                 }
                 Ok(())
             }
@@ -864,8 +896,13 @@ fn run_flavor<F: Flavor>(case: &ObsCase, prop: Prop) -> R<(CaseReport, OFeat, Ve
         shared: if case.shared_waker { Some(Flag::new()) } else { None },
         other: vec![],
     };
-    let v = OVal::new(case.init.0, case.init.1);
-    w.owners.push(Some(Box::new(if case.start_shared { Own::S(F::new_shared(v)) } else { Own::U(F::new_unique(v)) })));
+    if case.start_default {
+        w.value = (0, 0);
+        w.owners.push(Some(Box::new(if case.start_shared { Own::S(F::default_shared()) } else { Own::U(F::default_unique()) })));
+    } else {
+        let v = OVal::new(case.init.0, case.init.1);
+        w.owners.push(Some(Box::new(if case.start_shared { Own::S(F::new_shared(v)) } else { Own::U(F::new_unique(v)) })));
+    }
     for op in &case.ops {
         w.step(*op)?;
         w.counts()?;
@@ -1056,6 +1093,7 @@ pub fn op(g: &ObsGen) -> BoxedStrategy<ObsOp> {
             prop_oneof![
                 3 => ix().prop_map(ObsOp::CloneOwner),
                 4 => ix().prop_map(ObsOp::DropOwner),
+                1 => ix().prop_map(ObsOp::DropOwnerUnwinding),
                 2 => ix().prop_map(ObsOp::Downgrade),
                 3 => ix().prop_map(ObsOp::Upgrade),
                 1 => ix().prop_map(ObsOp::CloneWeak),
@@ -1119,6 +1157,7 @@ pub fn case(g: &ObsGen) -> BoxedStrategy<ObsCase> {
             ops,
             strict: false,
             shared_waker: gd % 3 == 0,
+            start_default: gd % 7 == 1,
         })
         .boxed()
 }
@@ -1197,6 +1236,7 @@ pub fn enumerate(max_len: usize, flavour: Fl, handles: bool) -> impl Iterator<It
                 ops: ops.clone(),
                 strict: false,
                 shared_waker: false,
+                start_default: false,
             })
         })
     })
